@@ -686,6 +686,10 @@ func (w *world) normDelivered(body string) string {
 
 const injectedMarker = "66.66.66.66"
 
+// unboundedLink lifts the back-pressure again. (A bound of 0 would switch the pipe back to its
+// unbounded mode, but a writer already parked in the bounded loop would never leave it.)
+const unboundedLink = 1 << 30
+
 func (w *world) stepResponse(sp *spec, c *Cell, rq *miniserver.Client, rid int64) (res stepResult) {
 	authed := rid != 0
 	isTarget := c.Identity == "T"
@@ -766,7 +770,7 @@ func (w *world) stepResponse(sp *spec, c *Cell, rq *miniserver.Client, rid int64
 		if c.When == "during" {
 			// a back-pressured link to the target: the server's write of the request blocks after its first byte
 			tc.Near.SetMaxBuffered(1)
-			defer tc.Near.SetMaxBuffered(0)
+			defer tc.Near.SetMaxBuffered(unboundedLink)
 		}
 		done := make(chan string, 1)
 		var wantType packet.CommandType
@@ -816,7 +820,7 @@ func (w *world) stepResponse(sp *spec, c *Cell, rq *miniserver.Client, rid int64
 				w.hold = nil
 			}
 			finished = false
-			tc.Near.SetMaxBuffered(0) // the link drains: the write completes
+			tc.Near.SetMaxBuffered(unboundedLink) // the link drains: the write completes
 		}
 		// the request must show up on T's connection (or the asker is turned away at once)
 		for !forwarded && !finished && time.Now().Before(deadline) {
@@ -932,7 +936,11 @@ func (w *world) stepResponse(sp *spec, c *Cell, rq *miniserver.Client, rid int64
 			absorb(p)
 		}
 		if !isTarget && strings.Contains(got, injectedMarker) {
-			res.f = &fail{fmt.Sprintf("C11/%s/identity=%s/answer-of-non-target-accepted-for-pending-request-to-other-client", sp.Name, cls),
+			timing := ""
+			if c.When != "" {
+				timing = "/answer-arrived-" + c.When + "-write-of-request"
+			}
+			res.f = &fail{fmt.Sprintf("C11/%s/identity=%s/answer-of-non-target-accepted-for-pending-request-to-other-client%s", sp.Name, cls, timing),
 				fmt.Sprintf("request %s was sent to client T; the answer pushed by %s(id %d, authenticated=%v) was delivered to the asker: %s", pendID, c.Identity, rid, authed, trunc(got, 400))}
 			return
 		}
